@@ -183,6 +183,25 @@ def fresh(prefix, sort):
     return z3.Const('%s!%d' % (prefix, next(_fresh)), sort)
 
 
+def uses_fresh_since(exprs, mark, *allowed):
+    ok = set(a.get_id() for a in allowed)
+    seen = set()
+    stack = list(exprs)
+    while stack:
+        x = stack.pop()
+        if x.get_id() in seen:
+            continue
+        seen.add(x.get_id())
+        if z3.is_const(x) and x.decl().kind() == z3.Z3_OP_UNINTERPRETED and x.get_id() not in ok:
+            nm = x.decl().name()
+            if '!' in nm:
+                tail = nm.rsplit('!', 1)[1]
+                if tail.isdigit() and int(tail) > mark:
+                    return True
+        stack.extend(x.children())
+    return False
+
+
 def fkey(field, ty):
     return ('f', field, sort_key(ty) if not is_reflike(ty) else 'R', sort_of(ty))
 
@@ -850,6 +869,20 @@ class Engine(object):
                             hv = z3.Select(v, path[1])
                             st.assume(z3.And(hv >= 0, hv < b))
 
+    def elem_fact(self, st, elem_ty, z):
+        """Typing discipline L6: a list / dict whose static element type is an object reference never holds
+        None (every store in verified code is checked by `elem_store_check`; for inputs it is part of
+        well-typedness, listed in the trusted base)."""
+        if isinstance(elem_ty, Ref) and not getattr(elem_ty, 'optional', False):
+            st.assume(z > 0)
+
+    def elem_store_check(self, ctx, st, elem_ty, v):
+        if isinstance(elem_ty, Ref) and not getattr(elem_ty, 'optional', False) and not ctx.spec:
+            cs = z3.simplify(v.z > 0)
+            if not z3.is_true(cs):
+                self.emit(ctx, st, 'safe', 'list_element_not_None', v.z > 0,
+                          note='a list of %s objects must not receive None' % elem_ty.cls)
+
     def write_field(self, ctx, st, obj, field, val):
         fty = self.field_type(obj.ty.cls, field)
         if fty is None:
@@ -888,6 +921,7 @@ class Engine(object):
         j = z3.simplify(j)
         z = z3.Select(self.list_arr(st, lst), j)
         self.ref_fact(st, lst.ty.elem, z, ekey(lst.ty.elem), [lst.z, j])
+        self.elem_fact(st, lst.ty.elem, z)
         return SV(lst.ty.elem, z)
 
     def list_set_raw(self, st, lst, n, arr):
@@ -942,6 +976,7 @@ class Engine(object):
         n = self.list_len(st, lst)
         arr = self.list_arr(st, lst)
         v = self.coerce(item, e)
+        self.elem_store_check(ctx, st, e, v)
         self.list_set_raw(st, lst, n + 1, z3.Store(arr, n, v.z))
         if e in (STR, BYTES):
             self.set_ghost(st, 'joined', z3.StringSort(), lst.z,
@@ -1074,6 +1109,9 @@ class Engine(object):
     def ev_List(self, e, st, ctx):
         for st2, items in self.ev_list(e.elts, st, ctx):
             elem = self.hint_elem(ctx, e, items)
+            for it in items:
+                if isinstance(elem, Ref):
+                    self.elem_store_check(ctx, st2, elem, self.coerce(it, elem))
             yield st2, self.new_list(st2, elem, items)
 
     def hint_elem(self, ctx, node, items):
@@ -1414,6 +1452,12 @@ class Engine(object):
         raise Unsupported('slice on %r' % (t,))
 
     def ev_ListComp(self, e, st, ctx):
+        """[elt for x in L (if cond)] over a list (or enumerate(list)) with pure elt / cond.
+
+        Without a filter: len(r) == len(L) and r[j] == elt(L[j]) for every j.
+        With a filter the result is characterised by a strictly increasing index map `idx` (result position ->
+        source position) whose range is exactly the set of source positions satisfying cond, together with
+        its inverse `inv` (DESIGN 3.2, L6)."""
         hook = self.opts.get('listcomp_hook')
         if hook:
             r = hook(self, e, st, ctx)
@@ -1421,7 +1465,101 @@ class Engine(object):
                 for x in r:
                     yield x
                 return
-        raise Unsupported('list comprehension')
+        if len(e.generators) != 1 or len(e.generators[0].ifs) > 1 or e.generators[0].is_async:
+            raise Unsupported('list comprehension shape')
+        gen = e.generators[0]
+        src = gen.iter
+        enum = False
+        if isinstance(src, ast.Call) and isinstance(src.func, ast.Name) and src.func.id == 'enumerate' and len(src.args) == 1:
+            enum = True
+            src = src.args[0]
+        for st1, seq in self.ev(src, st, ctx):
+            seq = self.iter_source(ctx, st1, seq)
+            if not isinstance(seq.ty, ListT):
+                raise Unsupported('list comprehension over %r' % (seq.ty,))
+            n = self.list_len(st1, seq)
+            st1.assume(n >= 0)
+            arr = self.list_arr(st1, seq)
+            jv = fresh('lc!j', z3.IntSort())
+
+            def at(pos, want_cond, want_elt):
+                """Evaluate cond / elt with the loop variable bound to L[pos] -> (facts, cond z3 | None, elt SV | None)"""
+                tmp = st1.fork()
+                tmp.assume(z3.And(0 <= pos, pos < n))
+                n0 = len(tmp.pc)
+                z = z3.Select(arr, pos)
+                self.ref_fact(tmp, seq.ty.elem, z)
+                self.elem_fact(tmp, seq.ty.elem, z)
+                item = SV(seq.ty.elem, z)
+                if isinstance(seq.ty.elem, Ref):
+                    self.type_fact(tmp, item)
+                val = self.mk_tuple([SV(INT, pos), item]) if enum else item
+                saved = {}
+                names = [x.id for x in ast.walk(gen.target) if isinstance(x, ast.Name)]
+                for nm in names:
+                    saved[nm] = tmp.locals.get(nm)
+                outs = self.assign(gen.target, val, tmp, ctx)
+                if len(outs) != 1:
+                    raise Unsupported('forking comprehension target')
+                cz = None
+                ez = None
+                if want_cond and gen.ifs:
+                    r1 = list(self.ev(gen.ifs[0], tmp, ctx))
+                    if len(r1) != 1 or not self.same_heap(r1[0][0], st1):
+                        raise Unsupported('comprehension filter is not a pure single-path expression')
+                    tmp = r1[0][0]
+                    cz = self.truth(tmp, r1[0][1])
+                if want_elt:
+                    r2 = list(self.ev(e.elt, tmp, ctx))
+                    if len(r2) != 1 or not self.same_heap(r2[0][0], st1):
+                        raise Unsupported('comprehension element is not a pure single-path expression')
+                    tmp = r2[0][0]
+                    ez = r2[0][1]
+                return list(tmp.pc[n0:]), cz, ez
+
+            mark = next(_fresh)
+            facts, cz, ez = at(jv, True, True)
+            probe = list(facts) + ([cz] if cz is not None else []) + ([ez.z] if not isinstance(ez.z, tuple) else [])
+            if uses_fresh_since(probe, mark, jv):
+                # a symbol introduced while evaluating the body would have to be a function of the position
+                raise Unsupported('comprehension body introduces per-element fresh symbols')
+            elem_ty = getattr(e, '_pyvc_elem', None) or ez.ty
+            if isinstance(ez.z, tuple):
+                raise Unsupported('comprehension element of python-level type')
+            ezz = self.coerce(ez, elem_ty).z
+            r = self.new_list(st1, elem_ty)
+            rarr = fresh('lc!arr', z3.ArraySort(z3.IntSort(), sort_of(elem_ty)))
+            rng = z3.And(0 <= jv, jv < n)
+            if not gen.ifs:
+                st1.assume(z3.ForAll([jv], z3.Implies(rng, z3.And(facts + [z3.Select(rarr, jv) == ezz]))))
+                self.list_set_raw(st1, r, n, rarr)
+                yield st1, r
+                continue
+            m = fresh('lc!m', z3.IntSort())
+            idx = fresh('lc!idx', z3.ArraySort(z3.IntSort(), z3.IntSort()))
+            inv = fresh('lc!inv', z3.ArraySort(z3.IntSort(), z3.IntSort()))
+            kv = fresh('lc!k', z3.IntSort())
+            k2 = fresh('lc!k2', z3.IntSort())
+            # every result position comes from a source position that passes the filter
+            sub = [(jv, z3.Select(idx, kv))]
+            body_k = z3.substitute(z3.And(facts + [cz, z3.Select(rarr, kv) == ezz]), *sub)
+            st1.assume(z3.And(m >= 0, m <= n))
+            st1.assume(z3.ForAll([kv], z3.Implies(z3.And(0 <= kv, kv < m),
+                                                  z3.And(0 <= z3.Select(idx, kv), z3.Select(idx, kv) < n,
+                                                         z3.Select(inv, z3.Select(idx, kv)) == kv, body_k)),
+                                 patterns=[z3.Select(rarr, kv), z3.Select(idx, kv)]))
+            st1.assume(z3.ForAll([kv, k2], z3.Implies(z3.And(0 <= kv, kv < k2, k2 < m),
+                                                      z3.Select(idx, kv) < z3.Select(idx, k2)),
+                                 patterns=[z3.MultiPattern(z3.Select(idx, kv), z3.Select(idx, k2))]))
+            # every source position that passes the filter is some result position
+            if facts:
+                st1.assume(z3.ForAll([jv], z3.Implies(rng, z3.And(facts))))
+            st1.assume(z3.ForAll([jv], z3.Implies(z3.And(rng, cz),
+                                                  z3.And(0 <= z3.Select(inv, jv), z3.Select(inv, jv) < m,
+                                                         z3.Select(idx, z3.Select(inv, jv)) == jv)),
+                                 patterns=[z3.Select(arr, jv), z3.Select(inv, jv)]))
+            self.list_set_raw(st1, r, m, rarr)
+            yield st1, r
 
     def ev_Lambda(self, e, st, ctx):
         yield st, SV(ANYFUNC, ('lambda', e, dict(st.locals)))
